@@ -105,6 +105,7 @@ Plan parse_plan(const std::string &text) {
             p.read0 = atof(kv.str("read0", "0").c_str());
             p.clkgran = kv.u64("clkgran", 1);
             p.cantxq = kv.u64("cantxq", 0);
+            p.soak = kv.u64("soak", 0);
         } else if (kv.op == "can") {
             CanW w;
             w.t = kv.u64("t");
@@ -129,6 +130,11 @@ Plan parse_plan(const std::string &text) {
             p.mut.push_back(m);
         } else if (kv.op == "inj") {
             p.inj.push_back(Inj{kv.u64("t"), sim::unhex(kv.str("data")), kv.str("note")});
+        } else if (kv.op == "inrep") {
+            InRep ir;
+            ir.t = kv.u64("t"); ir.dt = std::max<uint64_t>(1, kv.u64("dt", 1)); ir.n = kv.u64("n"); ir.node = (int)kv.u64("node", 0);
+            ir.kind = kv.str("kind", "nal"); ir.seed = kv.u64("seed", 1);
+            p.inrep.push_back(ir);
         } else if (kv.op == "restart") {
             p.restart.push_back(kv.u64("t"));
         } else if (kv.op == "stall") {
@@ -154,6 +160,8 @@ struct RunState {
     // C18 bookkeeping
     bool quiet = false;
     uint64_t probes_recv = 0, probe_cargo = 0, effects_after_quiet = 0, damaged_recv = 0, recv_total = 0, handlers_done = 0;
+    // soak runs: observable effects and datagrams received, sampled at the borders of an early and a late window of equal length
+    uint64_t effects_total = 0, win_eff[6] = {0, 0, 0, 0, 0, 0}, win_recv[6] = {0, 0, 0, 0, 0, 0};
     uint64_t last_recv_frame = 0;
     bool last_recv_probe = false;
     std::map<uint64_t, size_t> probe_expect;             // frame id -> number of effects expected
@@ -535,14 +543,17 @@ void exec_plan(const std::string &text, bool verbose) {
     };
     w.hooks.on_can_write = [](World &, int node, int, const CanRec &) {
         RunState &rs = *g_rs;
+        if (node == rs.listener) rs.effects_total++;
         if (node == rs.listener && rs.quiet) rs.effects_after_quiet++;
     };
     w.hooks.on_stdout_fd = [](World &, int node, const uint8_t *, size_t) {
         RunState &rs = *g_rs;
+        if (node == rs.listener) rs.effects_total++;
         if (node == rs.listener && rs.quiet) rs.effects_after_quiet++;
     };
     w.hooks.on_stdout_line = [](World &, int node, const std::string &) {
         RunState &rs = *g_rs;
+        if (node == rs.listener) rs.effects_total++;
         if (node == rs.listener && rs.quiet) rs.effects_after_quiet++;
     };
     w.hooks.on_handler_done = [](World &w, int node) {
@@ -568,6 +579,31 @@ void exec_plan(const std::string &text, bool verbose) {
         w.at(w.t_origin + c.t, [&w, rec] { w.inject_can(0, rec); });
     }
     for (auto &s : p.in) w.feed_stdin(s.node, w.t_origin + s.t, s.bytes);
+    // soak workload: chunk k of a repetition is produced when its time comes (a million chunks are not kept in memory)
+    static std::function<void(size_t, uint64_t)> feed_rep;
+    feed_rep = [&w](size_t ri, uint64_t k) {
+        const InRep &ir = g_rs->plan.inrep[ri];
+        if (k >= ir.n) return;
+        sim::Rng cr(sim::mix64(ir.seed, k));
+        std::vector<uint8_t> bytes;
+        if (ir.kind == "nal") {  // start code + 1..60 payload bytes without zeros
+            bytes = {0, 0, 1};
+            size_t n = 1 + cr.below(60);
+            for (size_t i = 0; i < n; i++) bytes.push_back((uint8_t)(1 + cr.below(255)));
+        } else {                 // pcm: one to four 4-byte sample groups
+            size_t n = 4 * (1 + cr.below(4));
+            for (size_t i = 0; i < n; i++) bytes.push_back((uint8_t)cr.next());
+        }
+        w.feed_stdin(ir.node, w.now, std::move(bytes));
+        w.at(w.t_origin + ir.t + (k + 1) * ir.dt, [ri, k] { feed_rep(ri, k + 1); });
+    };
+    for (size_t ri = 0; ri < p.inrep.size(); ri++) w.at(w.t_origin + p.inrep[ri].t, [ri] { feed_rep(ri, 0); });
+    if (p.soak) {
+        // early window [5 %, 10 %] and two late windows [88 %, 93 %], [94 %, 99 %] of the run
+        static const double marks[6] = {0.05, 0.10, 0.88, 0.93, 0.94, 0.99};
+        for (int mi = 0; mi < 6; mi++)
+            w.at(w.t_origin + (uint64_t)((double)(p.tend - p.drain) * marks[mi]), [mi] { g_rs->win_eff[mi] = g_rs->effects_total; g_rs->win_recv[mi] = g_rs->recv_total; });
+    }
     for (auto &i : p.inj) {
         Frame f;
         f.data = i.data;
@@ -621,7 +657,7 @@ void exec_plan(const std::string &text, bool verbose) {
         w.log("phase-quiet");
     });
 
-    w.run(w.t_origin + p.tend, 4000000);
+    w.run(w.t_origin + p.tend, p.soak ? 4000000000ULL : 4000000);
     if (!c19 && p.scen != "crfT" && rs.listener >= 0) {
         // A handler that happens to be in progress at the cut-off instant (its own presentation timer fired a few microseconds
         // earlier) is allowed to finish: the cut-off is the simulator's, not the listener's. Bounded by the step/call budgets.
@@ -672,6 +708,19 @@ void exec_plan(const std::string &text, bool verbose) {
         for (auto &e : w.fds)
             if (e.node == rs.listener && (e.kind == FdEnt::PACKET || e.kind == FdEnt::UDP) && !e.rxq.empty() && p.scen != "crfT")
                 violation("probe-lost:unread", strf("%zu datagrams still unread at the end of the run", e.rxq.size()));
+        if (p.soak) {
+            // the same kind of valid traffic that produced output early in the run must still produce output late in the run
+            uint64_t ea = rs.win_eff[1] - rs.win_eff[0], ra = rs.win_recv[1] - rs.win_recv[0];
+            w.counters["soak.datagrams"] = rs.recv_total;
+            for (int k = 2; k < 6; k += 2) {
+                uint64_t eb = rs.win_eff[k + 1] - rs.win_eff[k], rb = rs.win_recv[k + 1] - rs.win_recv[k];
+                // outputs per datagram fell to less than a quarter of what the same traffic yielded early on
+                if (ea >= 1000 && ra >= 1000 && rb >= ra / 2 && (double)eb / (double)rb < 0.25 * (double)ea / (double)ra)
+                    violation("probe-lost:deaf-after-long-service",
+                              strf("valid traffic only: %llu datagrams in the early window produced %llu outputs, %llu datagrams in a late window produced %llu (%llu datagrams received in total)",
+                                   (unsigned long long)ra, (unsigned long long)ea, (unsigned long long)rb, (unsigned long long)eb, (unsigned long long)rs.recv_total));
+            }
+        }
         if (rs.effects_after_quiet < rs.probe_cargo) w.counters["probe_effect_deficit"] = rs.probe_cargo - rs.effects_after_quiet;
         if (rs.effects_after_quiet < rs.probe_cargo)
             violation("probe-lost:effect", strf("after the faults stopped the listener received %llu well-formed datagrams that should have produced %llu outputs, but produced %llu",
